@@ -196,6 +196,12 @@ fn extra_templates() -> Vec<(&'static str, T)> {
         ("READ A(I)", T::S(Stmt::Read(vec![lvi("A", vec![var("I")])]))),
         ("READ B$(2)", T::S(Stmt::Read(vec![lvi("B$", vec![num(2.0)])]))),
         ("REM c", T::S(Stmt::Rem(" c".into()))),
+        ("READ I,A(I)", T::S(Stmt::Read(vec![lv("I"), lvi("A", vec![var("I")])]))),
+        ("DATA 3,42,2,7", T::S(Stmt::Data(vec![DataItem::N(3.0), DataItem::N(42.0), DataItem::N(2.0), DataItem::N(7.0)]))),
+        ("K=5", T::S(assign("K", num(5.0)))),
+        ("FOR K=2 TO 8 STEP K", T::S(Stmt::For("K".into(), num(2.0), num(8.0), Some(var("K"))))),
+        ("FOR K=K TO 3", T::S(Stmt::For("K".into(), var("K"), num(3.0), None))),
+        ("PRINT K;", T::S(p(vec![PItem::E(var("K")), PItem::Semi]))),
         // ---- INPUT family ----
         ("INPUT X", T::S(Stmt::Input(lv("X")))),
         ("INPUT Y$", T::S(Stmt::Input(lv("Y$")))),
@@ -247,12 +253,17 @@ pub fn fn_menu() -> Vec<(&'static str, T)> {
 
 /// Arrays: explicit and implicit dimensioning, strides, subscript errors.
 pub fn array_menu() -> Vec<(&'static str, T)> {
-    pick(&["DIM A(2)", "DIM M(1,2,1)", "A(I)=I", "M(1,J,0)=7", "PRINT A(11)", "PRINT M(1,2,1);M(0,0,0)", "FOR I=1 TO 2", "NEXT I", "PRINT A(I);A(0)", "A(3)=1", "B$(1)=\"q\"", "PRINT B$(1);B$(2)", "FOR J=2 TO 1 STEP -1", "NEXT J", "A(1)=\"s\" (ill-typed)", "READ A(I)", "READ B$(2)", "DATA 2"])
+    pick(&["DIM A(2)", "DIM M(1,2,1)", "A(I)=I", "M(1,J,0)=7", "PRINT A(11)", "PRINT M(1,2,1);M(0,0,0)", "FOR I=1 TO 2", "NEXT I", "PRINT A(I);A(0)", "A(3)=1", "B$(1)=\"q\"", "PRINT B$(1);B$(2)", "FOR J=2 TO 1 STEP -1", "NEXT J", "A(1)=\"s\" (ill-typed)", "READ A(I)", "READ B$(2)", "DATA 2", "READ I,A(I)", "DATA 3,42,2,7"])
 }
 
 /// IF / ELSE lines combined with subroutines and loops.
 pub fn branch_menu() -> Vec<(&'static str, T)> {
     pick(&["IF X THEN PRINT 1", "IF X THEN PRINT 1 ELSE PRINT 2", "IF X=0 THEN GOSUB sub ELSE PRINT \"NO\"", "IF X THEN X=5", "IF X THEN last", "IF X THEN GOSUB sub", "X=X+1", "PRINT X", "GOTO first", "RETURN", "FOR I=1 TO 2", "NEXT I", "IF X THEN GOSUB sub ELSE PRINT \"NO\"", "IF X=0 THEN PRINT 1/0"])
+}
+
+/// Loops whose limit, step or start mention the loop's own variable.
+pub fn forvar_menu() -> Vec<(&'static str, T)> {
+    pick(&["K=K+1", "K=5", "FOR K=1 TO K+2", "FOR K=2 TO 8 STEP K", "FOR K=K TO 3", "PRINT K;", "NEXT K"])
 }
 
 /// Statements that execute nothing (REM, DATA) between ones that do: what one call steps over.
